@@ -24,10 +24,10 @@ Theorem C03_id3f_history : forall ops f f',
 Proof. exact c03_history. Qed.
 Print Assumptions C03_id3f_history.
 
-(* well-formed files are accepted by mutagen's header reader with the same size, and parse strictly *)
+(* well-formed files parse strictly, and mutagen's header reader accepts them with the same size *)
 Theorem C03_id3f_wf_parses : forall f, id3f_wf f = true -> exists s, id3f_parse f = Ok s /\
-  131 <= zlen (i_mid s) /\ starts_with M_ID3 (i_mid s) = false /\ strict_v1 (i_mid s) = false /\
-  find_id3v1 (i_mid s) = None /\ (forall v, i_v1 s = Some v -> v1_fits (i_mid s) v = true).
+  starts_with M_ID3 (i_mid s) = false /\ strict_v1 (i_mid s) = false /\
+  find_id3v1 0 (i_mid s) = None /\ (forall v, i_v1 s = Some v -> v1_fits (i_mid s) v = true).
 Proof. exact wf_inv. Qed.
 Print Assumptions C03_id3f_wf_parses.
 Theorem C03_id3f_header_accepted : forall known f t, parse_tag f = Ok t -> mut_header known f = Ok (option_map t_size t).
